@@ -1155,6 +1155,15 @@ type When struct {
 
 	// when of a uses or an augment handed down to the nodes it adds
 	fromAncestor bool
+
+	// the when the node states itself, a node is there only when both hold
+	also *When
+}
+
+// Also is a second when that has to hold too: the one a node states itself
+// when this one was handed down to it from its uses or augment
+func (y *When) Also() *When {
+	return y.also
 }
 
 // FromAncestor is true when the statement was written on the uses or the augment that added
